@@ -6,6 +6,7 @@ pub mod c03;
 pub mod c04;
 pub mod c05;
 pub mod c06;
+pub mod c07;
 pub mod c08;
 pub mod c09;
 pub mod c10;
@@ -31,6 +32,7 @@ macro_rules! dispatch {
             "C04" => c04::$f($ctx $(, $arg)?),
             "C05" => c05::$f($ctx $(, $arg)?),
             "C06" => c06::$f($ctx $(, $arg)?),
+            "C07" => c07::$f($ctx $(, $arg)?),
             "C08" => c08::$f($ctx $(, $arg)?),
             "C09" => c09::$f($ctx $(, $arg)?),
             "C10" => c10::$f($ctx $(, $arg)?),
